@@ -102,9 +102,13 @@ class AppError(Exception):
 # program generator
 # --------------------------------------------------------------------------------------
 
-FILES = ["pkg/alpha.py", "pkg/alpha2.py", "lib/alpha.py", "lib/beta.py", "gamma.py"]
-FUNC_NAMES = ["run", "helper", "load", "step", "compute"]
-CLASS_NAMES = ["K", "L", "Node"]
+# file names and function names are related to one another by suffix / prefix / substring on purpose: a selector
+# aimed at exactly one of them must not reach the others (mod.py / submod.py / mod.py2; run / dry_run / rerun / run2 /
+# runner; load / reload / preload; Job.run / SubJob.rerun)
+FILES = ["pkg/alpha.py", "pkg/alpha2.py", "lib/alpha.py", "lib/beta.py", "gamma.py",
+         "pkg/mod.py", "pkg/submod.py", "lib/mod.py2", "lib/mod.py"]
+FUNC_NAMES = ["run", "dry_run", "rerun", "run2", "runner", "load", "reload", "preload", "helper", "step"]
+CLASS_NAMES = ["K", "Job", "SubJob"]
 # ordinary names, private / dunder names, and names that are legal variables although they look special:
 # the soft keywords (`_`, `match`, `case`, `type`), `__`, names with digits, non-ASCII identifiers
 VAR_NAMES = ["a", "b", "x", "y", "data", "secret", "cfg", "n", "_priv", "__dd", "__dunder__", "tmp", "total",
@@ -279,7 +283,7 @@ def _render_step(rng, i, kind, how, bottom, tog_ids, f, relay_defined):
                 ["_REG['s%d'] = %s().%s" % (i, cls, meth)])
     if kind == "nested":
         name = "outer%d" % i
-        inner = rng.choice(["inner", "helper", "run"])
+        inner = rng.choice(["inner", "helper", "run", "rerun", "dry_run"])
         act2 = _action_lines(rng, i, how, bottom, var="_j")
         body_in = ["z = cap"] + assigns + act2 + afters
         return (["def %s(_i):" % name, "    cap = %s" % _gen_value(rng, tog_ids),
@@ -334,7 +338,7 @@ def _render_step(rng, i, kind, how, bottom, tog_ids, f, relay_defined):
 # --------------------------------------------------------------------------------------
 
 def modname_for(rel):
-    return "c17m_" + rel[:-3].replace("/", "_")
+    return "c17m_" + rel.replace("/", "_").replace(".", "_")
 
 
 def load_program(prog, root, write=True):
@@ -449,8 +453,10 @@ def _gen_pattern(rng, frames):
         rx = "."
     elif r < 0.80:
         rx = r"(pkg|lib)/.*\.py"
-    elif r < 0.85:
+    elif r < 0.83:
         rx = "alpha2?\\.py"
+    elif r < 0.87:
+        rx = rng.choice(["/" + base.replace(".", r"\.") + "$", "^.*/" + base.replace(".", r"\.") + "$", base[1:], base[:-1]])
     elif r < 0.90:
         rx = "zzz_nomatch"
     elif r < 0.94:
@@ -469,20 +475,26 @@ def _gen_pattern(rng, frames):
     elif r < 0.95:
         ln = " %d " % line
     elif r < 0.97:
-        ln = rng.choice(["-3", "+%d" % line, "1_0", "0%d" % line])
+        ln = rng.choice(["-3", "+%d" % line, "1_0", "0%d" % line, str(line)[:-1], str(line) + "0", "1" + str(line)])
     else:
         ln = rng.choice(["x", "1.5", "1e2", "--1", "_1", "1__0"])
     r = rng.random()
-    if r < 0.50:
+    if r < 0.40:
         fn = ""
-    elif r < 0.72:
+    elif r < 0.62:
         fn = name
-    elif r < 0.90:
+    elif r < 0.78:
         fn = qual
-    elif r < 0.95:
+    elif r < 0.81:
         fn = "nomatch"
+    elif r < 0.93:
+        # a name that is a proper suffix / prefix / inner part of the frame's name or qualified name, or the name of
+        # a suffix-related function: denotes this frame only if some frame is called exactly that
+        fn = rng.choice([name[1:], name[2:], name[:-1], qual[1:], qual.split(".")[-1][-3:], "run", "load",
+                         "re" + name, "dry_" + name, name + "2", "." + name, "<locals>." + name,
+                         qual.split(".", 1)[-1], "Job." + name])
     else:
-        fn = rng.choice([name.upper(), name[:-1], "<lambda>", "<module>", "Body"])
+        fn = rng.choice([name.upper(), "<lambda>", "<module>", "Body", "<genexpr>"])
     return "%s:%s:%s" % (rx, ln, fn)
 
 
